@@ -147,9 +147,8 @@ def run_case(case, ctx):
       r = R.F(dr * (i + 1))
       row = sec["rows"][i]
       where = "block %d (%s-%s) row %d r=%s route=%s" % (idx, a, b, i + 1, row[1], route)
-      e_ref = o.value(r)
-      oracle.check_token(ctx, "energy", row[2], e_ref, o.vscale(r), where=where, mag=o.mag(r))
-      if (not o.analytic) and oracle.near_break(r, o.breaks):
+      oracle.check_value(ctx, "energy", row[2], o, r, where=where)
+      if oracle.on_break(r, o.breaks) or ((not o.analytic) and oracle.near_break(r, o.breaks)):
         ctx.count("force_rows_skipped_at_breakpoint")
         continue
       f_ref = -o.deriv(r)
